@@ -386,8 +386,13 @@ func (lex* lexer) RecordPosition(n ast.Node, pos ast.Position) {
 
 func (lex *lexer) LastDocstring() string {
     // If we've had more than one line since we recorded
-    // the docstring, ignore it.
-    if lex.linesSinceDocstring > 1 {
+    // the docstring, ignore it. Newlines that follow the current
+    // (keyword) token come after the start of the definition.
+    lines := lex.linesSinceDocstring
+    if lex.lineStart > lex.ts {
+        lines -= bytes.Count(lex.data[lex.ts:lex.lineStart], []byte{'\n'})
+    }
+    if lines > 1 {
         return ""
     }
 
